@@ -10,7 +10,8 @@ FIRST = {
  "C10-m1": "missed", "C10-m2": "caught (R-PAIR)", "C13-m1": "caught (R-SCRATCH)", "C13-m2": "missed", "C14-m1": "caught (R-LOCK)", "C14-m2": "caught (R-READONLY)",
  "C15-m1": "caught (R-STICKY)", "C15-m2": "missed", "C18-m1": "caught (R-SIBTREE)", "C18-m2": "missed", "C19-m1": "caught (R-ORDER)", "C19-m2": "missed",
 }
-for l in open('/verif/seeded/ROUND2_FIRST_TRY.txt'):
+import itertools
+for l in itertools.chain(open('/verif/seeded/ROUND2_FIRST_TRY.txt'), open('/verif/seeded/ROUND3_FIRST_TRY.txt')):
     m = re.match(r"(\S+)\s+own=(\S+)\s*(.*?)\s+others=(.*)", l)
     if not m: continue
     name, own, keys, others = m.groups()
